@@ -111,6 +111,15 @@ func (s *Store) Push(b bpv7.Bundle) error {
 		}
 
 		if knownFragment {
+			// A fragment with the same offset might carry more payload than the stored one, e.g., if the bundle was
+			// fragmented twice for different MTUs. Both share one file; the longer one is kept.
+			if stored, err := compPart.Load(); err == nil && fragmentPayloadLen(b) > fragmentPayloadLen(stored) {
+				log.WithFields(log.Fields{
+					"bundle": b.ID().String(),
+				}).Info("Received bundle fragment with more payload than the stored one, replacing it")
+				return compPart.storeBundle(b)
+			}
+
 			log.WithFields(log.Fields{
 				"bundle": b.ID().String(),
 			}).Debug("Received bundle fragment, which is already stored")
@@ -134,6 +143,15 @@ func (s *Store) Push(b bpv7.Bundle) error {
 		}).Debug("Bundle ID is known, ignoring push")
 
 		return nil
+	}
+}
+
+// fragmentPayloadLen is the length of a bundle's payload, or zero if there is none.
+func fragmentPayloadLen(b bpv7.Bundle) int {
+	if pb, err := b.PayloadBlock(); err != nil {
+		return 0
+	} else {
+		return len(pb.Value.(*bpv7.PayloadBlock).Data())
 	}
 }
 
